@@ -122,7 +122,12 @@ class json {
       case BOOL: out += i ? "true" : "false"; break;
       case INT: std::snprintf(buf, sizeof buf, "%lld", static_cast<long long>(i)); out += buf; break;
       case UINT: std::snprintf(buf, sizeof buf, "%llu", static_cast<unsigned long long>(u)); out += buf; break;
-      case DBL: std::snprintf(buf, sizeof buf, "%.9g", d); out += buf; break;
+      case DBL:
+        if (d != d) { out += "\"nan\""; break; }
+        if (d > 1.7e308 || d < -1.7e308) { out += d > 0 ? "\"inf\"" : "\"-inf\""; break; }
+        std::snprintf(buf, sizeof buf, "%.9g", d);
+        out += buf;
+        break;
       case STR: esc(out, s); break;
       case ARR: {
         out += '[';
